@@ -93,6 +93,7 @@ def observe(case):
     zero = all(float(np.max(np.abs(np.asarray(x)))) == 0.0 for x in (r.fields.E, r.fields.H))
     zero = zero and all(float(np.max(np.abs(np.asarray(v)))) == 0.0 for d in r.detector_states.values() for v in d.values())
     same_mat = bool(np.array_equal(np.asarray(r.inv_permittivities), np.asarray(arrays.inv_permittivities)))
+    jax.clear_caches()
     rec = H.finalize(case["id"], T, events, tol=5, cmp_fp=False, extra={"splits": case["splits"], "reset_zero": bool(zero), "reset_keeps_materials": same_mat})
     return rec
 
